@@ -15,6 +15,11 @@ import threading
 mon = sys.monitoring
 
 
+# > 0 while a monitor makes calls of its own (vlib.brd): recorders and online oracles stand aside, so that what they count and
+# judge is what the workload did, not what another monitor did on top of it
+SUSPEND = [0]
+
+
 class MonitorViolation(AssertionError):
     """Raised by contracts / oracles of the harness (never by pydl)."""
 
@@ -43,6 +48,8 @@ class Recorder:
 
         @functools.wraps(orig)
         def wrapper(*a, **k):
+            if SUSPEND[0]:
+                return orig(*a, **k)
             rec.calls[label] = rec.calls.get(label, 0) + 1
             if len(rec.events) < rec.keep:
                 rec.events.append(('call', label, digest(a, k) if digest else None))
